@@ -61,7 +61,8 @@ def plan(tier, seed):
 def floors(tier):
     return {'evaluations': 2000, 'distinct_nontrivial': 20000, 'legacy_calls_compared': 100000,
             'spelling_parses_compared': 15000, 'histkeys:method': 11, 'histkeys:spelling': 8,
-            'histkeys:argspec': 121, 'k4_witness_checked': 1, 'optarg_views_checked': 2000}
+            'histkeys:argspec': 121, 'k4_witness_checked': 1, 'optarg_views_checked': 2000,
+            'hist:call_context:bracket': 300, 'hist:call_context:math': 100}
 
 
 def setup(rec):
@@ -414,7 +415,7 @@ def norm_empty_args(d):
 
 def parse_with_spec(s, macro, env, tol):
     db = LatexContextDb()
-    db.add_context_category('x', macros=[macro, MacroSpec('alpha', '')], environments=[env])
+    db.add_context_category('x', macros=[macro, MacroSpec('alpha', ''), MacroSpec('bar', '[{')], environments=[env])
     db.set_unknown_macro_spec(MacroSpec(''))
     db.set_unknown_environment_spec(EnvironmentSpec(''))
     try:
@@ -473,6 +474,16 @@ def check_specs(argspec, calls, rng, rec):
     for ci in range(calls):
         wellformed = ci % 3 != 0
         s = gen_call(rng, argspec, wellformed, legacy_safe=True)
+        # the call directly inside a bracket group (whose contents state carries the extra group delimiters while the
+        # call's arguments get the outer state), a braced group, or a formula
+        wrap = ('none', 'bracket', 'none', 'brace', 'none', 'math', 'bracket')[ci % 7]
+        rec.hist('call_context', wrap)
+        if wrap == 'bracket':
+            s = '\\bar[x' + s + ' y]{z}'
+        elif wrap == 'brace':
+            s = '{x' + s + '}'
+        elif wrap == 'math':
+            s = '$' + s + '$'
         if ci % 4 == 0:
             s = s + ' \\begin{E}' + gen_call(rng, argspec, True, True, is_env=True)[4:] + ' body \\end{E}'
         for tol in (False, True):
